@@ -4,11 +4,12 @@ set -e
 DIR="$(cd "$(dirname "$0")" && pwd)"
 cd "$DIR"
 export PYTHONHASHSEED=0 PYTHONDONTWRITEBYTECODE=1
-mkdir -p evidence replays .lock
+export PYTHONPATH="${VERIF_REPO:-/repo}/src"
+mkdir -p evidence replays .lock coq/Gen
 /venv/bin/python harness/translate.py || echo "setup: translator reported closed failures (checks will report them)"
+/venv/bin/python harness/mkproject.py
 cd coq
-coq_makefile -f _CoqProject -o Makefile >/dev/null
-timeout 3000 make -j16 > ../.lock/setup_make.log 2>&1 || { tail -30 ../.lock/setup_make.log; echo "setup: coq build failed (checks will report it)"; }
+timeout 6000 make -k -j16 > ../.lock/setup_make.log 2>&1 || { tail -30 ../.lock/setup_make.log; echo "setup: coq build failed (checks will report it)"; }
 cd ../ocaml
 ./build.sh || echo "setup: ocaml build failed"
 echo "setup done"
